@@ -167,6 +167,9 @@ def conts(seed):
     return [" " + c, "\td", " .", " e: f", " #g", "  h  ", " i\t", " -----BEGIN PGP X-----"]
 
 
+MARKER_LINES = ["-----BEGIN PGP SIGNED MESSAGE-----", "-----BEGIN PGP SIGNATURE-----", "-----END PGP SIGNATURE-----",
+                "-----BEGIN PGP MESSAGE-----", "Hash: SHA512", "- -----BEGIN PGP SIGNED MESSAGE-----", "- x", "-", "--",
+                "#comment", "# A: b", "B: w", "B:", ":", ".", "\\n", "Version: GnuPG v1", "=abcd", "iQEzBAEBCAAdFiEE"]
 SWEEP_NON_ASCII = ["é", "ß", "Ω", "я", "中", "ç", "ñ", "ø", "ж", "ü", "λ", "√"]
 SWEEP_CHUNK = 24
 
@@ -185,6 +188,15 @@ def sweep_pars():
     out += [[("X%sY" % c, "v")] for c in sweep_name_chars()]
     # ... and as the first character of the name, which only '#' and '-' may not be
     out += [[("%sY" % c, "v"), ("Z", "w")] for c in sweep_name_chars() if c not in "#-"]
+    # markers of the neighbouring layers (armor, armor headers, dash-escaping, comments, field syntax) spelled in full
+    # inside a value: as its first line, as a continuation line, and between two fields
+    for m in MARKER_LINES:
+        out.append([("A", "x\n " + m)])
+        out.append([("A", "x\n " + m + "\n y"), ("B", "w")])
+        out.append([("A", "\n " + m)])
+        if not m.startswith("#"):
+            out.append([("A", m), ("B", "w")])
+            out.append([("A", m + "\n " + m)])
     return out
 
 
